@@ -31,19 +31,27 @@ def canon(m):
     return f'? {m!r}'
 
 
+def plines(text):
+    """the lines of a source text as the Python parser counts them (not str.splitlines, which also splits on form feeds)"""
+    return io.StringIO(text, newline='').readlines()
+
+
 def describe(src):
     tree = astroid.parse(src, path=Path('mod.py'))
     body = []
     for st in tree.body:
-        if isinstance(st, astroid.Import): body.append(['I', st.lineno, [n for n, _ in st.names]])
-        elif isinstance(st, astroid.ImportFrom): body.append(['F', st.lineno, st.modname])
+        # the line is the last line of the statement; a name imported under an alias is shown as such (it does not bind `deal`)
+        if isinstance(st, astroid.Import): body.append(['I', st.end_lineno or st.lineno, [n if a in (None, n) else f'{n} as {a}' for n, a in st.names]])
+        elif isinstance(st, astroid.ImportFrom): body.append(['F', st.end_lineno or st.lineno, st.modname])
         else: body.append(['O'])
     funcs = []
     for func in Func.from_astroid(tree):
         decos = []
         if func.node.decorators is not None:
             for d in func.node.decorators.nodes:
-                decos.append(['N', d.lineno, d.name] if isinstance(d, astroid.Name) else ['O', d.lineno])
+                if isinstance(d, astroid.Name): decos.append(['N', d.lineno, d.name])
+                elif isinstance(d, astroid.Attribute) and d.as_string() == 'deal.inherit': decos.append(['H', d.lineno])
+                else: decos.append(['O', d.lineno])
         contracts = []
         for c in func.contracts:
             markers = []
@@ -54,7 +62,7 @@ def describe(src):
             if func.node.decorators is not None:
                 for d in func.node.decorators.nodes:
                     if d.lineno == c.line and d.end_lineno: last = d.end_lineno
-            contracts.append({'cat': CATS.get(c.category.value, 'other'), 'line': c.line, 'last': last,
+            contracts.append({'cat': CATS.get(c.category.value, 'other'), 'line': c.line, 'last': last, 'inherited': bool(getattr(c, 'inherited', False)),
                               'excs': [exc_str(e) for e in c.exceptions] if c.category.value in ('raises', 'safe', 'pure') else [],
                               'markers': markers if c.category.value in ('has', 'pure') else []})
         declared = []
@@ -106,7 +114,13 @@ def declarations(src):
     for func in Func.from_text(src):
         ex, mk = set(), set()
         for c in func.contracts:
-            if c.category in (Category.RAISES, Category.SAFE, Category.PURE): ex |= {exc_str(e) for e in c.exceptions}
+            if c.category in (Category.RAISES, Category.SAFE, Category.PURE):
+                ex |= {exc_str(e) for e in c.exceptions}
+                # a starred argument declares whatever the sequence holds: it has to stay (as text)
+                for a in c.args:
+                    if type(a).__name__ == 'Starred':
+                        try: ex.add('*' + (a.value.as_string() if hasattr(a.value, 'as_string') else ast.unparse(a.value)))
+                        except Exception: ex.add('*?')
             if c.category in (Category.HAS, Category.PURE):
                 for arg in c.args:
                     v = get_value(arg)
@@ -132,9 +146,17 @@ def defined_names(src):
     return sorted((k, type(v).__name__) for k, v in ns.items() if not k.startswith('__') and k != 'deal')
 
 
+def probe(src, expr):
+    ns = {'__name__': 'c19_mod'}
+    with contextlib.redirect_stdout(io.StringIO()), contextlib.redirect_stderr(io.StringIO()):
+        exec(compile(src, 'mod.py', 'exec'), ns)
+        try: return ['ok', repr(eval(expr, ns))[:80]]
+        except BaseException as e: return ['exc', type(e).__name__]
+
+
 def run(case):
     src, types, quote = case['src'], case['types'], case.get('quote', "'")
-    res = {'lines': [l.rstrip('\n') for l in src.splitlines(keepends=True)]}
+    res = {'lines': [l.rstrip('\n') for l in plines(src)]}
     try:
         res['descr'] = describe(src)
     except Exception as e:
@@ -142,7 +164,7 @@ def run(case):
     cap = []
     try:
         out = transform(src, types, quote, cap)
-        res['plan'] = cap; res['out'] = [l.rstrip('\n') for l in out.splitlines(keepends=True)]; res['exc'] = None
+        res['plan'] = cap; res['out'] = [l.rstrip('\n') for l in plines(out)]; res['exc'] = None
     except Exception as e:
         res['plan'] = None; res['out'] = None; res['exc'] = type(e).__name__ + ': ' + str(e)[:200]
         res['mon'] = {'crash': res['exc']}
@@ -186,9 +208,21 @@ def run(case):
         if mon['fixpoint'] and set(types) >= {'raises', 'has', 'safe', 'pure', 'import'}:
             mon['findings_at_fixpoint'] = findings(cur)
         try:
-            mon['same_definitions'] = defined_names(src) == defined_names(cur)
+            before_names = defined_names(src)
         except BaseException as e:
-            mon['exec_error'] = repr(e)[:200]
+            before_names = None; mon['exec_error'] = repr(e)[:200]
+        if before_names is not None:
+            try:
+                mon['same_definitions'] = before_names == defined_names(cur)
+            except BaseException as e:
+                mon['new_exec_error'] = repr(e)[:200]      # the original module executes, the transformed one does not
+        # behaviour probes of hand-written cases: the same expression evaluated in both modules
+        if case.get('probes') and before_names is not None and 'new_exec_error' not in mon:
+            diffs = []
+            for pr in case['probes']:
+                a, b = probe(src, pr), probe(cur, pr)
+                if a != b: diffs.append(f'{pr}: original {a}, transformed {b}')
+            mon['probe_diffs'] = diffs
     except Exception as e:
         mon['monitor_error'] = repr(e)[:300]
     res['mon'] = mon
